@@ -153,7 +153,7 @@ func applyInt32Constraints(constraints *validate.FieldRules, schema *base.Schema
 	// Greater than (exclusive minimum)
 	if int32Constraints.HasGt() {
 		minValue := float64(int32Constraints.GetGt())
-		schema.ExclusiveMinimum = &base.DynamicValue[bool, float64]{B: minValue}
+		schema.ExclusiveMinimum = &base.DynamicValue[bool, float64]{N: 1, B: minValue}
 	}
 
 	// Less than or equal (maximum)
@@ -165,7 +165,7 @@ func applyInt32Constraints(constraints *validate.FieldRules, schema *base.Schema
 	// Less than (exclusive maximum)
 	if int32Constraints.HasLt() {
 		maxValue := float64(int32Constraints.GetLt())
-		schema.ExclusiveMaximum = &base.DynamicValue[bool, float64]{B: maxValue}
+		schema.ExclusiveMaximum = &base.DynamicValue[bool, float64]{N: 1, B: maxValue}
 	}
 
 	// Const value
@@ -204,7 +204,7 @@ func applyInt64Constraints(constraints *validate.FieldRules, schema *base.Schema
 	// Greater than (exclusive minimum)
 	if int64Constraints.HasGt() {
 		minValue := float64(int64Constraints.GetGt())
-		schema.ExclusiveMinimum = &base.DynamicValue[bool, float64]{B: minValue}
+		schema.ExclusiveMinimum = &base.DynamicValue[bool, float64]{N: 1, B: minValue}
 	}
 
 	// Less than or equal (maximum)
@@ -216,7 +216,7 @@ func applyInt64Constraints(constraints *validate.FieldRules, schema *base.Schema
 	// Less than (exclusive maximum)
 	if int64Constraints.HasLt() {
 		maxValue := float64(int64Constraints.GetLt())
-		schema.ExclusiveMaximum = &base.DynamicValue[bool, float64]{B: maxValue}
+		schema.ExclusiveMaximum = &base.DynamicValue[bool, float64]{N: 1, B: maxValue}
 	}
 
 	// Const value
@@ -255,7 +255,7 @@ func applyFloatConstraints(constraints *validate.FieldRules, schema *base.Schema
 	// Greater than (exclusive minimum)
 	if floatConstraints.HasGt() {
 		minValue := float64(floatConstraints.GetGt())
-		schema.ExclusiveMinimum = &base.DynamicValue[bool, float64]{B: minValue}
+		schema.ExclusiveMinimum = &base.DynamicValue[bool, float64]{N: 1, B: minValue}
 	}
 
 	// Less than or equal (maximum)
@@ -267,7 +267,7 @@ func applyFloatConstraints(constraints *validate.FieldRules, schema *base.Schema
 	// Less than (exclusive maximum)
 	if floatConstraints.HasLt() {
 		maxValue := float64(floatConstraints.GetLt())
-		schema.ExclusiveMaximum = &base.DynamicValue[bool, float64]{B: maxValue}
+		schema.ExclusiveMaximum = &base.DynamicValue[bool, float64]{N: 1, B: maxValue}
 	}
 
 	// Const value
@@ -306,7 +306,7 @@ func applyDoubleConstraints(constraints *validate.FieldRules, schema *base.Schem
 	// Greater than (exclusive minimum)
 	if doubleConstraints.HasGt() {
 		minValue := doubleConstraints.GetGt()
-		schema.ExclusiveMinimum = &base.DynamicValue[bool, float64]{B: minValue}
+		schema.ExclusiveMinimum = &base.DynamicValue[bool, float64]{N: 1, B: minValue}
 	}
 
 	// Less than or equal (maximum)
@@ -318,7 +318,7 @@ func applyDoubleConstraints(constraints *validate.FieldRules, schema *base.Schem
 	// Less than (exclusive maximum)
 	if doubleConstraints.HasLt() {
 		maxValue := doubleConstraints.GetLt()
-		schema.ExclusiveMaximum = &base.DynamicValue[bool, float64]{B: maxValue}
+		schema.ExclusiveMaximum = &base.DynamicValue[bool, float64]{N: 1, B: maxValue}
 	}
 
 	// Const value
